@@ -1,3 +1,469 @@
+(* CacheProofs.v -- lemmas about the cachex event machine (models/Cache.v). *)
 From Got Require Import Base Cache.
+Require Import Permutation.
 Local Open Scope Z_scope.
-Lemma c_placeholder : c_now c_init = 0. Proof. reflexivity. Qed.
+
+(* ------------------------------------------------------------------ map primitives *)
+Lemma c_lookup_remove m k k' :
+  c_lookup (c_remove m k) k' = if k =? k' then None else c_lookup m k'.
+Proof.
+  induction m as [|[a f] r IH]; cbn [c_remove c_lookup].
+  - destruct (k =? k'); reflexivity.
+  - destruct (a =? k) eqn:Eak.
+    + rewrite IH. destruct (k =? k') eqn:Ek; [reflexivity|].
+      assert (a =? k' = false) by lia. rewrite H. reflexivity.
+    + cbn [c_lookup]. rewrite IH. destruct (a =? k') eqn:Eak'.
+      * assert (k =? k' = false) by lia. rewrite H. reflexivity.
+      * reflexivity.
+Qed.
+
+Lemma c_lookup_update m k f k' :
+  c_lookup (c_update m k f) k' = if k =? k' then Some f else c_lookup m k'.
+Proof.
+  unfold c_update. cbn [c_lookup]. destruct (k =? k') eqn:E; [reflexivity|].
+  rewrite c_lookup_remove, E. reflexivity.
+Qed.
+
+Lemma c_lookup_in m k f : c_lookup m k = Some f -> In (k, f) m.
+Proof.
+  induction m as [|[a g] r IH]; cbn [c_lookup]; [discriminate|].
+  destruct (a =? k) eqn:E; intros H.
+  - inversion H; subst. left. f_equal. lia.
+  - right. auto.
+Qed.
+
+Lemma c_lookup_notin m k : ~ In k (map fst m) -> c_lookup m k = None.
+Proof.
+  induction m as [|[a g] r IH]; cbn [c_lookup map fst]; [reflexivity|].
+  intros H. destruct (a =? k) eqn:E.
+  - exfalso. apply H. left. lia.
+  - apply IH. intros Hin. apply H. right. exact Hin.
+Qed.
+
+Lemma c_remove_keys_subset m k a : In a (map fst (c_remove m k)) -> In a (map fst m) /\ a <> k.
+Proof.
+  induction m as [|[b g] r IH]; cbn [c_remove map fst]; [intros []|].
+  destruct (b =? k) eqn:E.
+  - intros H. destruct (IH H). split; [right; assumption|assumption].
+  - cbn [map fst]. intros [H|H].
+    + subst. split; [left; reflexivity|lia].
+    + destruct (IH H). split; [right; assumption|assumption].
+Qed.
+
+Lemma c_remove_nodup m k : NoDup (map fst m) -> NoDup (map fst (c_remove m k)).
+Proof.
+  induction m as [|[b g] r IH]; cbn [c_remove map fst]; [auto|].
+  intros H. inversion H; subst. destruct (b =? k).
+  - auto.
+  - cbn [map fst]. constructor; [|auto].
+    intros Hin. apply c_remove_keys_subset in Hin. tauto.
+Qed.
+
+Lemma c_update_nodup m k f : NoDup (map fst m) -> NoDup (map fst (c_update m k f)).
+Proof.
+  intros H. unfold c_update. cbn [map fst]. constructor.
+  - intros Hin. apply c_remove_keys_subset in Hin. tauto.
+  - apply c_remove_nodup. exact H.
+Qed.
+
+Lemma c_filter_keys_subset (p : Z * nat -> bool) m a :
+  In a (map fst (filter p m)) -> In a (map fst m).
+Proof.
+  rewrite !in_map_iff. intros [x [Hx Hin]]. apply filter_In in Hin. exists x. tauto.
+Qed.
+
+Lemma c_filter_nodup (p : Z * nat -> bool) m : NoDup (map fst m) -> NoDup (map fst (filter p m)).
+Proof.
+  induction m as [|[b g] r IH]; cbn [filter map fst]; [auto|].
+  intros H. inversion H; subst. destruct (p (b, g)).
+  - cbn [map fst]. constructor; [|auto]. intros Hin. apply c_filter_keys_subset in Hin. auto.
+  - auto.
+Qed.
+
+Lemma c_lookup_filter (p : nat -> bool) m k :
+  NoDup (map fst m) ->
+  c_lookup (filter (fun kf => p (snd kf)) m) k =
+  match c_lookup m k with Some f => if p f then Some f else None | None => None end.
+Proof.
+  induction m as [|[b g] r IH]; cbn [filter c_lookup map fst snd]; [reflexivity|].
+  intros H. inversion H; subst. destruct (p g) eqn:Ep; cbn [c_lookup].
+  - destruct (b =? k) eqn:E; [rewrite Ep; reflexivity|]. auto.
+  - destruct (b =? k) eqn:E.
+    + rewrite Ep. apply c_lookup_notin. intros Hin. apply c_filter_keys_subset in Hin.
+      assert (b = k) by lia. subst. auto.
+    + auto.
+Qed.
+
+(* ------------------------------------------------------------------ arena primitives *)
+Lemma c_get_lt futs f x : c_get futs f = Some x -> (f < length futs)%nat.
+Proof. unfold c_get. intros H. apply nth_error_Some. congruence. Qed.
+
+Lemma c_get_app_old futs x f y : c_get futs f = Some y -> c_get (futs ++ [x]) f = Some y.
+Proof.
+  intros H. unfold c_get in *. rewrite nth_error_app1; [exact H|]. apply nth_error_Some. congruence.
+Qed.
+
+Lemma c_get_app_new futs x : c_get (futs ++ [x]) (length futs) = Some x.
+Proof. unfold c_get. rewrite nth_error_app2 by lia. rewrite Nat.sub_diag. reflexivity. Qed.
+
+Lemma c_get_app_inv futs x f y :
+  c_get (futs ++ [x]) f = Some y -> c_get futs f = Some y \/ (f = length futs /\ y = x).
+Proof.
+  unfold c_get. intros H. destruct (Nat.lt_ge_cases f (length futs)) as [Hlt|Hge].
+  - rewrite nth_error_app1 in H by exact Hlt. left. exact H.
+  - rewrite nth_error_app2 in H by exact Hge.
+    destruct (f - length futs)%nat as [|n] eqn:E; cbn in H.
+    + right. split; [lia|congruence].
+    + destruct n; discriminate.
+Qed.
+
+Lemma c_get_setfut futs f x g :
+  (f < length futs)%nat ->
+  c_get (c_setfut futs f x) g = if Nat.eqb g f then Some x else c_get futs g.
+Proof.
+  unfold c_get, c_setfut. revert f g. induction futs as [|a r IH]; intros f g Hlt; cbn [length] in Hlt; [lia|].
+  destruct f as [|f]; destruct g as [|g]; cbn; try reflexivity.
+  apply IH. lia.
+Qed.
+
+Lemma c_setfut_length futs f x : (f < length futs)%nat -> length (c_setfut futs f x) = length futs.
+Proof.
+  unfold c_setfut. revert f. induction futs as [|a r IH]; intros f Hlt; cbn [length] in Hlt; [lia|].
+  destruct f as [|f]; cbn; [reflexivity|]. f_equal. apply IH. lia.
+Qed.
+
+(* ------------------------------------------------------------------ take_first / take_nth *)
+Lemma c_take_first_spec p l f l' :
+  c_take_first p l = Some (f, l') -> Permutation l (f :: l') /\ p f = true.
+Proof.
+  revert f l'. induction l as [|a r IH]; cbn [c_take_first]; intros f l' H; [discriminate|].
+  destruct (p a) eqn:Ep.
+  - inversion H; subst. split; [apply Permutation_refl|exact Ep].
+  - destruct (c_take_first p r) as [[g r']|] eqn:Et; [|discriminate].
+    inversion H; subst. destruct (IH _ _ eq_refl) as [HP Hp]. split; [|exact Hp].
+    eapply perm_trans; [apply perm_skip; exact HP|apply perm_swap].
+Qed.
+
+Lemma c_take_nth_spec p i l f l' :
+  c_take_nth p i l = Some (f, l') -> Permutation l (f :: l') /\ p f = true.
+Proof.
+  revert i f l'. induction l as [|a r IH]; cbn [c_take_nth]; intros i f l' H; [discriminate|].
+  destruct (p a) eqn:Ep.
+  - destruct i as [|j].
+    + inversion H; subst. split; [apply Permutation_refl|exact Ep].
+    + destruct (c_take_nth p j r) as [[g r']|] eqn:Et; [|discriminate].
+      inversion H; subst. destruct (IH _ _ _ Et) as [HP Hp]. split; [|exact Hp].
+      eapply perm_trans; [apply perm_skip; exact HP|apply perm_swap].
+  - destruct (c_take_nth p i r) as [[g r']|] eqn:Et; [|discriminate].
+    inversion H; subst. destruct (IH _ _ _ Et) as [HP Hp]. split; [|exact Hp].
+    eapply perm_trans; [apply perm_skip; exact HP|apply perm_swap].
+Qed.
+
+Lemma c_key_is_spec futs k f :
+  c_key_is futs k f = true -> exists x, c_get futs f = Some x /\ c_fkey x = k.
+Proof.
+  unfold c_key_is. destruct (c_get futs f) as [x|]; [|discriminate].
+  intros H. exists x. split; [reflexivity|lia].
+Qed.
+
+(* ------------------------------------------------------------------ status facts *)
+Definition c_isload (futs : list c_fut) (f : nat) : Prop :=
+  exists x, c_get futs f = Some x /\ c_fdone x = None.
+
+Lemma c_status_loading cfg now futs f x :
+  c_get futs f = Some x -> c_fdone x = None -> c_status cfg now futs (Some f) = CGood.
+Proof. intros Hg Hd. unfold c_status, c_status_fut. rewrite Hg, Hd. reflexivity. Qed.
+
+Lemma c_status_done cfg now futs f x v e u :
+  c_get futs f = Some x -> c_fdone x = Some (v, e, u) ->
+  c_status cfg now futs (Some f) =
+    if now - u <? c_expire cfg e then CGood
+    else if now - u <? 2 * c_expire cfg e then CExpired else CRotted.
+Proof. intros Hg Hd. unfold c_status, c_status_fut. rewrite Hg, Hd. reflexivity. Qed.
+
+Lemma c_status_some_cases cfg now futs f :
+  (c_get futs f = None /\ c_status cfg now futs (Some f) = CEmpty) \/
+  (exists x, c_get futs f = Some x /\ c_fdone x = None /\ c_status cfg now futs (Some f) = CGood) \/
+  (exists x v e u, c_get futs f = Some x /\ c_fdone x = Some (v, e, u) /\
+     ((now - u < c_expire cfg e /\ c_status cfg now futs (Some f) = CGood) \/
+      (c_expire cfg e <= now - u < 2 * c_expire cfg e /\ c_status cfg now futs (Some f) = CExpired) \/
+      (2 * c_expire cfg e <= now - u /\ c_status cfg now futs (Some f) = CRotted))).
+Proof.
+  destruct (c_get futs f) as [x|] eqn:Hg.
+  - right. destruct (c_fdone x) as [[[v e] u]|] eqn:Hd.
+    + right. exists x, v, e, u. split; [reflexivity|]. split; [exact Hd|].
+      rewrite (c_status_done cfg now futs f x v e u Hg Hd).
+      destruct (now - u <? c_expire cfg e) eqn:E1; [left; split; [lia|reflexivity]|].
+      destruct (now - u <? 2 * c_expire cfg e) eqn:E2; right; [left|right]; (split; [lia|reflexivity]).
+    + left. exists x. split; [reflexivity|]. split; [exact Hd|]. eapply c_status_loading; eauto.
+  - left. split; [reflexivity|]. unfold c_status. rewrite Hg. reflexivity.
+Qed.
+
+(* status depends on the arena only through the entry itself *)
+Lemma c_status_ext cfg now futs futs' of :
+  (forall f, of = Some f -> c_get futs' f = c_get futs f) ->
+  c_status cfg now futs' of = c_status cfg now futs of.
+Proof. intros H. destruct of as [f|]; [|reflexivity]. unfold c_status. rewrite (H f eq_refl). reflexivity. Qed.
+
+(* ------------------------------------------------------------------ the invariant *)
+Record c_inv (cfg : c_cfg) (s : c_state) : Prop := {
+  ci_map_wf : forall k f, c_lookup (c_map s) k = Some f ->
+      exists x, c_get (c_futs s) f = Some x /\ c_fkey x = k;
+  ci_keys : NoDup (map fst (c_map s));
+  ci_jobs_nodup : NoDup (c_queue s ++ c_running s);
+  ci_jobs : forall f, In f (c_queue s ++ c_running s) <-> c_isload (c_futs s) f;
+  ci_current : forall f x, c_get (c_futs s) f = Some x -> c_fdone x = None ->
+      In f (c_displaced s) \/ c_lookup (c_map s) (c_fkey x) = Some f;
+  ci_pred : forall f x p, c_get (c_futs s) f = Some x -> c_fpred x = Some p ->
+      c_fdone x = None /\
+      exists y v e u, c_get (c_futs s) p = Some y /\ c_fkey y = c_fkey x /\
+        c_fdone y = Some (v, e, u) /\ c_expire cfg e <= c_now s - u;
+  ci_stamps : forall f x v e u, c_get (c_futs s) f = Some x -> c_fdone x = Some (v, e, u) -> u <= c_now s
+}.
+
+Lemma c_inv_init cfg : c_inv cfg c_init.
+Proof.
+  constructor; cbn; intros.
+  - discriminate.
+  - constructor.
+  - constructor.
+  - split; [intros []|]. intros [x [H _]]. destruct f; discriminate.
+  - destruct f; discriminate.
+  - destruct f; discriminate.
+  - destruct f; discriminate.
+Qed.
+
+Lemma c_inv_advance cfg s dt :
+  0 <= dt -> c_inv cfg s ->
+  c_inv cfg {| c_now := c_now s + dt; c_futs := c_futs s; c_map := c_map s; c_queue := c_queue s;
+               c_running := c_running s; c_displaced := c_displaced s |}.
+Proof.
+  intros Hdt I. destruct I as [I1 I2 I3 I4 I5 I6 I7]. constructor; cbn; auto.
+  - intros f x p Hg Hp. destruct (I6 f x p Hg Hp) as [Hd [y [v [e [u [Hy [Hk [Hdy Hage]]]]]]]].
+    split; [exact Hd|]. exists y, v, e, u. repeat split; auto. lia.
+  - intros f x v e u Hg Hd. specialize (I7 f x v e u Hg Hd). lia.
+Qed.
+
+Lemma c_inv_sweep cfg s : c_inv cfg s -> c_inv cfg (c_sweep cfg s).
+Proof.
+  intros I. destruct I as [I1 I2 I3 I4 I5 I6 I7]. constructor; cbn [c_sweep c_now c_futs c_map c_queue c_running c_displaced]; auto.
+  - intros k f H. rewrite (c_lookup_filter (fun f => negb (c_is_rotted cfg (c_now s) (c_futs s) f))) in H by exact I2.
+    destruct (c_lookup (c_map s) k) as [g|] eqn:E; [|discriminate].
+    destruct (negb (c_is_rotted cfg (c_now s) (c_futs s) g)); [|discriminate].
+    inversion H; subst. apply I1. exact E.
+  - apply c_filter_nodup. exact I2.
+  - intros f x Hg Hd. destruct (I5 f x Hg Hd) as [H|H]; [left; exact H|right].
+    rewrite (c_lookup_filter (fun f => negb (c_is_rotted cfg (c_now s) (c_futs s) f))) by exact I2.
+    rewrite H. unfold c_is_rotted. rewrite (c_status_loading cfg (c_now s) (c_futs s) f x Hg Hd). reflexivity.
+Qed.
+
+Lemma c_inv_start cfg s k s' o :
+  c_inv cfg s -> c_start s k = (s', o) -> c_inv cfg s'.
+Proof.
+  intros I H. unfold c_start in H.
+  destruct (c_take_first (c_key_is (c_futs s) k) (c_queue s)) as [[f q']|] eqn:Et.
+  2:{ inversion H; subst. exact I. }
+  inversion H; subst; clear H. destruct (c_take_first_spec _ _ _ _ Et) as [HP _].
+  destruct I as [I1 I2 I3 I4 I5 I6 I7]. constructor; cbn; auto.
+  - assert (HPP : Permutation (c_queue s ++ c_running s) (q' ++ c_running s ++ [f])).
+    { eapply perm_trans; [apply Permutation_app_tail; exact HP|]. cbn.
+      eapply perm_trans; [|apply Permutation_app_head; apply Permutation_cons_append].
+      apply Permutation_middle. }
+    eapply Permutation_NoDup; [exact HPP|exact I3].
+  - intros g. rewrite <- I4.
+    assert (HPP : Permutation (c_queue s ++ c_running s) (q' ++ c_running s ++ [f])).
+    { eapply perm_trans; [apply Permutation_app_tail; exact HP|]. cbn.
+      eapply perm_trans; [|apply Permutation_app_head; apply Permutation_cons_append].
+      apply Permutation_middle. }
+    split; intros Hin.
+    + eapply Permutation_in; [apply Permutation_sym; exact HPP|exact Hin].
+    + eapply Permutation_in; [exact HPP|exact Hin].
+Qed.
+
+Lemma c_isload_app futs x g :
+  c_isload (futs ++ [x]) g <-> c_isload futs g \/ (g = length futs /\ c_fdone x = None).
+Proof.
+  unfold c_isload. split.
+  - intros [y [Hg Hd]]. apply c_get_app_inv in Hg. destruct Hg as [Hg|[Hn Hy]].
+    + left. exists y. auto.
+    + right. subst. auto.
+  - intros [[y [Hg Hd]]|[Hn Hd]].
+    + exists y. split; [apply c_get_app_old; exact Hg|exact Hd].
+    + subst. exists x. split; [apply c_get_app_new|exact Hd].
+Qed.
+
+Lemma c_isload_lt futs g : c_isload futs g -> (g < length futs)%nat.
+Proof. intros [x [H _]]. eapply c_get_lt; eauto. Qed.
+
+Lemma c_inv_finish cfg s k i v e s' o :
+  c_inv cfg s -> c_finish s k i v e = (s', o) -> c_inv cfg s'.
+Proof.
+  intros I H. unfold c_finish in H.
+  destruct (c_take_nth (c_key_is (c_futs s) k) i (c_running s)) as [[f r']|] eqn:Et.
+  2:{ inversion H; subst. exact I. }
+  inversion H; subst; clear H. destruct (c_take_nth_spec _ _ _ _ _ Et) as [HP Hk].
+  destruct (c_key_is_spec _ _ _ Hk) as [x0 [Hg0 Hk0]].
+  destruct I as [I1 I2 I3 I4 I5 I6 I7].
+  assert (Hin : In f (c_queue s ++ c_running s)).
+  { apply in_or_app. right. eapply Permutation_in; [apply Permutation_sym; exact HP|left; reflexivity]. }
+  assert (Hl0 : c_fdone x0 = None).
+  { apply I4 in Hin. destruct Hin as [y [Hy Hd]]. congruence. }
+  assert (Hlt : (f < length (c_futs s))%nat) by (eapply c_get_lt; eauto).
+  assert (HPP : Permutation (c_queue s ++ c_running s) (f :: c_queue s ++ r')).
+  { eapply perm_trans; [apply Permutation_app_head; exact HP|]. apply Permutation_sym, Permutation_middle. }
+  assert (HND : NoDup (f :: c_queue s ++ r')) by (eapply Permutation_NoDup; eauto).
+  inversion HND as [|? ? Hnotin HND']; subst.
+  set (X := {| c_fkey := c_fkey x0; c_fdone := Some (v, e, c_now s); c_fpred := None |}).
+  assert (HG : forall g, c_get (c_setfut (c_futs s) f X) g = if Nat.eqb g f then Some X else c_get (c_futs s) g).
+  { intros g. apply c_get_setfut. exact Hlt. }
+  constructor; cbn [c_now c_futs c_map c_queue c_running c_displaced]; auto.
+  - intros k' g Hl. destruct (I1 k' g Hl) as [x [Hx Hkx]]. rewrite HG.
+    destruct (Nat.eqb g f) eqn:E.
+    + apply Nat.eqb_eq in E. subst g. exists X. split; [reflexivity|]. cbn. congruence.
+    + exists x. auto.
+  - intros g. split.
+    + intros Hing. assert (g <> f) by (intros ->; auto).
+      assert (Hing' : In g (c_queue s ++ c_running s)).
+      { eapply Permutation_in; [apply Permutation_sym; exact HPP|right; exact Hing]. }
+      apply I4 in Hing'. destruct Hing' as [y [Hy Hd]]. exists y. rewrite HG.
+      destruct (Nat.eqb g f) eqn:E; [apply Nat.eqb_eq in E; contradiction|auto].
+    + intros [y [Hy Hd]]. rewrite HG in Hy. destruct (Nat.eqb g f) eqn:E.
+      * inversion Hy; subst y. cbn in Hd. discriminate.
+      * apply Nat.eqb_neq in E. assert (Hing : In g (c_queue s ++ c_running s)).
+        { apply I4. exists y. auto. }
+        eapply Permutation_in in Hing; [|exact HPP]. destruct Hing as [->|Hing]; [contradiction|exact Hing].
+  - intros g x Hx Hd. rewrite HG in Hx. destruct (Nat.eqb g f) eqn:E.
+    + inversion Hx; subst x. cbn in Hd. discriminate.
+    + eapply I5; eauto.
+  - intros g x p Hx Hp. rewrite HG in Hx. destruct (Nat.eqb g f) eqn:E.
+    + inversion Hx; subst x. cbn in Hp. discriminate.
+    + destruct (I6 g x p Hx Hp) as [Hd [y [v' [e' [u' [Hy [Hky [Hdy Hage]]]]]]]].
+      split; [exact Hd|]. exists y, v', e', u'. repeat split; auto.
+      rewrite HG. destruct (Nat.eqb p f) eqn:E2; [|exact Hy].
+      apply Nat.eqb_eq in E2. subst p. congruence.
+  - intros g x v' e' u' Hx Hd. rewrite HG in Hx. destruct (Nat.eqb g f) eqn:E.
+    + inversion Hx; subst x. cbn in Hd. inversion Hd; subst. lia.
+    + eapply I7; eauto.
+Qed.
+
+Lemma c_inv_new_job cfg s k pred :
+  c_inv cfg s ->
+  c_status cfg (c_now s) (c_futs s) (c_lookup (c_map s) k) <> CGood ->
+  (pred = None \/ (pred = c_lookup (c_map s) k /\
+                   c_status cfg (c_now s) (c_futs s) (c_lookup (c_map s) k) = CExpired)) ->
+  c_inv cfg (c_new_job s k pred).
+Proof.
+  intros I Hst Hpred. destruct I as [I1 I2 I3 I4 I5 I6 I7].
+  set (X := {| c_fkey := k; c_fdone := None; c_fpred := pred |}).
+  assert (Hn : ~ In (length (c_futs s)) (c_queue s ++ c_running s)).
+  { intros Hin. apply I4 in Hin. apply c_isload_lt in Hin. lia. }
+  assert (HPP : Permutation ((c_queue s ++ [length (c_futs s)]) ++ c_running s)
+                            (length (c_futs s) :: c_queue s ++ c_running s)).
+  { rewrite <- app_assoc. cbn. apply Permutation_sym, Permutation_middle. }
+  constructor; cbn [c_new_job c_now c_futs c_map c_queue c_running c_displaced].
+  - intros k' f Hl. rewrite c_lookup_update in Hl. destruct (k =? k') eqn:E.
+    + inversion Hl; subst f. exists X. split; [apply c_get_app_new|cbn; lia].
+    + destruct (I1 k' f Hl) as [x [Hx Hk]]. exists x. split; [apply c_get_app_old; exact Hx|exact Hk].
+  - apply c_update_nodup. exact I2.
+  - eapply Permutation_NoDup; [apply Permutation_sym; exact HPP|]. constructor; assumption.
+  - intros g. rewrite c_isload_app. cbn [c_fdone X]. split.
+    + intros Hin. eapply Permutation_in in Hin; [|exact HPP]. destruct Hin as [<-|Hin].
+      * right. split; reflexivity.
+      * left. apply I4. exact Hin.
+    + intros [Hl|[-> _]]; (eapply Permutation_in; [apply Permutation_sym; exact HPP|]).
+      * right. apply I4. exact Hl.
+      * left. reflexivity.
+  - intros g x Hx Hd. apply c_get_app_inv in Hx. destruct Hx as [Hx|[-> ->]].
+    + destruct (I5 g x Hx Hd) as [H|H]; [left; exact H|]. right.
+      rewrite c_lookup_update. destruct (k =? c_fkey x) eqn:E; [|exact H].
+      exfalso. apply Hst. assert (k = c_fkey x) by lia. subst k. rewrite H.
+      eapply c_status_loading; eauto.
+    + right. cbn [c_fkey X]. rewrite c_lookup_update. rewrite Z.eqb_refl. reflexivity.
+  - intros g x p Hx Hp. apply c_get_app_inv in Hx. destruct Hx as [Hx|[-> ->]].
+    + destruct (I6 g x p Hx Hp) as [Hd [y [v [e [u [Hy [Hky [Hdy Hage]]]]]]]].
+      split; [exact Hd|]. exists y, v, e, u. repeat split; auto. apply c_get_app_old. exact Hy.
+    + cbn [c_fpred X] in Hp. split; [reflexivity|].
+      destruct Hpred as [Hpn|[Hpl Hexp]]; [congruence|]. rewrite Hp in Hpl.
+      destruct (I1 k p (eq_sym Hpl)) as [y [Hy Hky]].
+      rewrite <- Hpl in Hexp.
+      destruct (c_status_some_cases cfg (c_now s) (c_futs s) p) as [[Hnone _]|[[x [Hx [Hd Hs]]]|[x [v [e [u [Hx [Hd Hs]]]]]]]].
+      * congruence.
+      * congruence.
+      * assert (x = y) by congruence. subst x. exists y, v, e, u.
+        split; [apply c_get_app_old; exact Hy|]. split; [cbn; exact Hky|]. split; [exact Hd|].
+        destruct Hs as [[_ Hs]|[[Hs _]|[_ Hs]]]; [congruence|lia|congruence].
+  - intros g x v e u Hx Hd. apply c_get_app_inv in Hx. destruct Hx as [Hx|[-> ->]].
+    + eapply I7; eauto.
+    + cbn in Hd. discriminate.
+Qed.
+
+Lemma c_is_loading_spec futs f : c_is_loading futs f = true <-> c_isload futs f.
+Proof.
+  unfold c_is_loading, c_isload. split.
+  - destruct (c_get futs f) as [x|]; [|discriminate]. destruct (c_fdone x) eqn:E; [discriminate|].
+    intros _. exists x. auto.
+  - intros [x [Hx Hd]]. rewrite Hx, Hd. reflexivity.
+Qed.
+
+Lemma c_inv_set cfg s k v e : c_inv cfg s -> c_inv cfg (c_set s k v e).
+Proof.
+  intros I. destruct I as [I1 I2 I3 I4 I5 I6 I7].
+  set (X := {| c_fkey := k; c_fdone := Some (v, e, c_now s); c_fpred := None |}).
+  constructor; cbn [c_set c_now c_futs c_map c_queue c_running c_displaced].
+  - intros k' f Hl. rewrite c_lookup_update in Hl. destruct (k =? k') eqn:E.
+    + inversion Hl; subst f. exists X. split; [apply c_get_app_new|cbn; lia].
+    + destruct (I1 k' f Hl) as [x [Hx Hk]]. exists x. split; [apply c_get_app_old; exact Hx|exact Hk].
+  - apply c_update_nodup. exact I2.
+  - exact I3.
+  - intros g. rewrite c_isload_app. cbn [c_fdone X]. rewrite I4. split; [tauto|].
+    intros [H|[_ H]]; [exact H|discriminate].
+  - intros g x Hx Hd. apply c_get_app_inv in Hx. destruct Hx as [Hx|[-> ->]]; [|cbn in Hd; discriminate].
+    destruct (I5 g x Hx Hd) as [H|H].
+    + left. destruct (c_lookup (c_map s) k) as [old|]; [|exact H].
+      destruct (c_is_loading (c_futs s) old); [right; exact H|exact H].
+    + rewrite c_lookup_update. destruct (k =? c_fkey x) eqn:E; [|right; exact H].
+      left. assert (k = c_fkey x) by lia. subst k. rewrite H.
+      assert (Hl : c_is_loading (c_futs s) g = true) by (apply c_is_loading_spec; exists x; auto).
+      rewrite Hl. left. reflexivity.
+  - intros g x p Hx Hp. apply c_get_app_inv in Hx. destruct Hx as [Hx|[-> ->]]; [|cbn in Hp; discriminate].
+    destruct (I6 g x p Hx Hp) as [Hd [y [v' [e' [u' [Hy [Hky [Hdy Hage]]]]]]]].
+    split; [exact Hd|]. exists y, v', e', u'. repeat split; auto. apply c_get_app_old. exact Hy.
+  - intros g x v' e' u' Hx Hd. apply c_get_app_inv in Hx. destruct Hx as [Hx|[-> ->]].
+    + eapply I7; eauto.
+    + cbn in Hd. inversion Hd; subst. lia.
+Qed.
+
+Lemma c_load_cases cfg s k :
+  let last := c_lookup (c_map s) k in
+  let st := c_status cfg (c_now s) (c_futs s) last in
+  (st = CGood /\ c_load cfg s k =
+     (s, OLoad (match last with Some l => c_fetch cfg (c_now s) (c_futs s) l | None => O end) false)) \/
+  (st = CExpired /\ c_load cfg s k =
+     (c_new_job s k last, OLoad (match last with Some l => l | None => length (c_futs s) end) true)) \/
+  ((st = CRotted \/ st = CEmpty) /\ c_load cfg s k = (c_new_job s k None, OLoad (length (c_futs s)) true)).
+Proof.
+  cbv zeta. unfold c_load. destruct (c_status cfg (c_now s) (c_futs s) (c_lookup (c_map s) k)); auto.
+Qed.
+
+Lemma c_inv_step cfg s ev : c_inv cfg s -> c_inv cfg (fst (c_step cfg s ev)).
+Proof.
+  intros I. destruct ev as [k|k|k v e|k|k i v e| |dt]; cbn [c_step].
+  - destruct (c_load_cases cfg s k) as [[Hs ->]|[[Hs ->]|[Hs ->]]]; cbn [fst].
+    + exact I.
+    + apply c_inv_new_job; [exact I|congruence|right; auto].
+    + apply c_inv_new_job; [exact I|destruct Hs; congruence|left; reflexivity].
+  - exact I.
+  - cbn [fst]. apply c_inv_set. exact I.
+  - destruct (c_start s k) as [s' o] eqn:E. cbn [fst]. eapply c_inv_start; eauto.
+  - destruct (c_finish s k i v e) as [s' o] eqn:E. cbn [fst]. eapply c_inv_finish; eauto.
+  - cbn [fst]. apply c_inv_sweep. exact I.
+  - destruct (dt <? 0) eqn:E; cbn [fst]; [exact I|]. apply c_inv_advance; [lia|exact I].
+Qed.
+
+Lemma c_inv_run cfg evs : forall s, c_inv cfg s -> c_inv cfg (c_run cfg s evs).
+Proof.
+  induction evs as [|ev r IH]; intros s I; cbn [c_run]; [exact I|]. apply IH. apply c_inv_step. exact I.
+Qed.
+
+Lemma c_inv_reachable cfg evs : c_inv cfg (c_run cfg c_init evs).
+Proof. apply c_inv_run. apply c_inv_init. Qed.
